@@ -18,28 +18,58 @@ open Ferrous Ferrous.Stream Ferrous.Stream.Code
 /-! ### (1) IDs strictly increase over every history -/
 
 /-- Every accepted XADD (auto or explicit) returns an ID greater than every ID ever added to the
-    stream before it, whatever XDEL / XTRIM happened in between and whatever the clock did
+    stream before it, whatever XDEL / XTRIM happened in between, whatever the clock did and however
+    often the server was restarted from its dump in between
     (`added` is the ghost list of all accepted XADDs in order; `Sorted` = strictly increasing IDs;
-    the `addAuto` step is `StorageEngine::xadd`: the engine's pre-check, then `add_auto`).
+    the `addAuto` step is `StorageEngine::xadd`: the engine's pre-check, then `add_auto`; the
+    `restart` step is SAVE, stop, start, load).
     Full statement, no exclusion: holds for every tree whose generator carries into the next
-    millisecond and whose engine refuses `*` at the top of the ID space (`seqCarry`) — with the
-    repair applied that is /repo's tree, as lib/c15.py reads off stream.rs on every run. -/
-theorem ids_strictly_increase (q : Quirks) (hq : q.seqCarry = true) (ops : List Op) :
+    millisecond, whose engine refuses `*` at the top of the ID space (`seqCarry`) and whose dump
+    carries the last ID (`persistLastId`) — lib/c15.py reads both off the sources on every run. -/
+theorem ids_strictly_increase (q : Quirks) (hq : q.seqCarry = true) (hp : q.persistLastId = true) (ops : List Op) :
     Sorted (run q ops).added :=
-  (run_inv q ops (Or.inl hq)).incr
+  (run_inv q ops (Or.inl hq) (Or.inl hp)).incr
 
-/-- The tree as pinned: the same, for every history in which no auto ID was generated while the
-    last ID had sequence number 2^64-1 and the clock had not moved past its millisecond. -/
-theorem ids_strictly_increase_partial (ops : List Op) (h : (run pinned ops).wrapped = false) :
-    Sorted (run pinned ops).added :=
-  (run_inv pinned ops (Or.inr h)).incr
+/-- Any tree (the pinned one in particular): the same, for every history in which no auto ID was
+    generated while the last ID had sequence number 2^64-1 and the clock had not moved past its
+    millisecond, and in which no restart came back with a smaller last ID. -/
+theorem ids_strictly_increase_partial (q : Quirks) (ops : List Op)
+    (h : (run q ops).wrapped = false) (hl : (run q ops).lost = false) :
+    Sorted (run q ops).added :=
+  (run_inv q ops (Or.inr h) (Or.inr hl)).incr
+
+/-- The last ID of a stream never goes down, over EVERY history including restarts: with the last ID
+    in the dump a restart gives back exactly the saved state. -/
+theorem last_id_monotone (q : Quirks) (hq : q.seqCarry = true) (hp : q.persistLastId = true)
+    (ops : List Op) (op : Op) :
+    (run q ops).st.lastId ≤ (run q (ops ++ [op])).st.lastId := by
+  have hi := run_inv q ops (Or.inl hq) (Or.inl hp)
+  have : run q (ops ++ [op]) = step q (run q ops) op := by simp [run, List.foldl_append]
+  rw [this]
+  exact step_lastId_le q _ op hi (Or.inl hq) (Or.inl hp)
+
+/-- … and a restart is the identity on the stream (entries, fields, last ID, generator, length). -/
+theorem restart_is_identity (q : Quirks) (hq : q.seqCarry = true) (hp : q.persistLastId = true) (ops : List Op) :
+    restart q (run q ops).st = (run q ops).st :=
+  restart_eq q (run_inv q ops (Or.inl hq) (Or.inl hp)) (Or.inl hp)
+
+/-- Witness that without the last ID in the dump the full statement is false (hunt d1):
+    `XADD a 5-0; XADD a 9-0; XDEL a 9-0; SAVE; restart; XADD a 7-0` is accepted, and an emptied
+    stream comes back with last ID 0-0. -/
+theorem last_id_lost_by_restart :
+    (run pinned [.addId ⟨5, 0⟩ [], .addId ⟨9, 0⟩ [], .del [⟨9, 0⟩], .restart, .addId ⟨7, 0⟩ []]).added.map (·.1) =
+        [⟨5, 0⟩, ⟨9, 0⟩, ⟨7, 0⟩] ∧
+    (run pinned [.addId ⟨5, 0⟩ [], .addId ⟨9, 0⟩ [], .del [⟨9, 0⟩], .restart, .addId ⟨7, 0⟩ []]).lost = true ∧
+    (run pinned [.addId ⟨3, 0⟩ [], .trimCount 0, .restart]).st.lastId = Id.zero := by
+  refine ⟨by decide, by decide, by decide⟩
 
 /-- The excluded situation needs a sequence number at the very top of the u64 range: a history of
     `n` operations whose explicit IDs all have `seq + n < 2^64` never reaches it. -/
 theorem wrap_needs_top_seq (ops : List Op) (hn : ops.length < u64Mod)
     (h : ∀ op ∈ ops, seqRoom ops.length op) :
     (run pinned ops).wrapped = false := by
-  have := foldl_no_wrap pinned ops Run.init (by simpa [Run.init, Stream.new] using hn) h
+  have hk : 0 + ops.length < u64Mod := by omega
+  have := foldl_no_wrap pinned ops Run.init ⟨hk, hk, fun e he => by cases he⟩ h
   simpa [run, Run.init] using this
 
 /-- Witness that the full statement is false for the pinned tree:
@@ -89,10 +119,11 @@ theorem auto_id_rule (q : Quirks) (now : Nat) (s : Code.Stream) (id : Id) (ms sq
 
 /-- With the repair, `XADD *` is refused exactly when the last ID has no successor among u64 pairs
     ("or is refused when no greater ID exists"), and a refusal changes nothing. -/
-theorem auto_refused_iff_no_successor (q : Quirks) (hq : q.seqCarry = true) (ops : List Op) (now : Nat) (f : Fields) :
+theorem auto_refused_iff_no_successor (q : Quirks) (hq : q.seqCarry = true) (hp : q.persistLastId = true)
+    (ops : List Op) (now : Nat) (f : Fields) :
     ((xaddAuto q now f (run q ops).st).2 = none ↔ Spec.succId (run q ops).st.lastId = none) ∧
     ((xaddAuto q now f (run q ops).st).2 = none → (xaddAuto q now f (run q ops).st).1 = (run q ops).st) := by
-  have hi := run_inv q ops (Or.inl hq)
+  have hi := run_inv q ops (Or.inl hq) (Or.inl hp)
   have htop : isTopId (run q ops).st.lastId = true ↔ Spec.succId (run q ops).st.lastId = none := by
     unfold Spec.succId isTopId
     simp only [Bool.and_eq_true, decide_eq_true_eq]
@@ -128,10 +159,11 @@ theorem isTop_iff_eq_max (a : Id) (h1 : a.ms < u64Mod) (h2 : a.seq < u64Mod) :
 /-- XADD with an explicit ID that is 0-0 or not greater than some ID ever added is refused and the
     stream (entries, last ID, length) is exactly what it was. -/
 theorem explicit_not_greater_refused_no_effect (q : Quirks) (ops : List Op)
-    (hw : q.seqCarry = true ∨ (run q ops).wrapped = false) (id : Id) (f : Fields)
+    (hw : q.seqCarry = true ∨ (run q ops).wrapped = false)
+    (hl : q.persistLastId = true ∨ (run q ops).lost = false) (id : Id) (f : Fields)
     (h : id = Id.zero ∨ ∃ e ∈ (run q ops).added, id ≤ e.1) :
     addWithId id f (run q ops).st = ((run q ops).st, false) := by
-  have hi := run_inv q ops hw
+  have hi := run_inv q ops hw hl
   have hle : id ≤ (run q ops).st.lastId := by
     rcases h with rfl | ⟨e, he, hle⟩
     · exact Id.zero_le _
@@ -142,10 +174,11 @@ theorem explicit_not_greater_refused_no_effect (q : Quirks) (ops : List Op)
 /-- Conversely an explicit ID above 0-0 and above everything ever added is accepted: the entry is
     appended with its fields and becomes the last ID (refusal is not the trivial way out). -/
 theorem explicit_greater_accepted (q : Quirks) (ops : List Op)
-    (hw : q.seqCarry = true ∨ (run q ops).wrapped = false) (id : Id) (f : Fields)
+    (hw : q.seqCarry = true ∨ (run q ops).wrapped = false)
+    (hl : q.persistLastId = true ∨ (run q ops).lost = false) (id : Id) (f : Fields)
     (h0 : Id.zero < id) (h : ∀ e ∈ (run q ops).added, e.1 < id) :
     addWithId id f (run q ops).st = (push (run q ops).st id f, true) := by
-  have hi := run_inv q ops hw
+  have hi := run_inv q ops hw hl
   have hgt : (run q ops).st.lastId < id := by
     by_cases hnil : (run q ops).added = []
     · rw [hi.lastZero hnil]; exact h0
@@ -165,8 +198,9 @@ theorem explicit_greater_accepted (q : Quirks) (ops : List Op)
 /-- Every state reached without the wrap keeps its entries strictly sorted by ID, so the read
     theorems below apply to it. -/
 theorem reachable_sorted (q : Quirks) (ops : List Op)
-    (hw : q.seqCarry = true ∨ (run q ops).wrapped = false) : Sorted (run q ops).st.entries :=
-  (run_inv q ops hw).sorted
+    (hw : q.seqCarry = true ∨ (run q ops).wrapped = false)
+    (hl : q.persistLastId = true ∨ (run q ops).lost = false) : Sorted (run q ops).st.entries :=
+  (run_inv q ops hw hl).sorted
 
 /-- XRANGE (repaired end bound): on every strictly sorted entry list, for all bounds and every COUNT,
     the two binary searches and the index loop return exactly the entries with `s ≤ id ≤ e`,
@@ -274,10 +308,11 @@ theorem xtrim_minid_eq_filter (s : Code.Stream) (h : Sorted s.entries) (m : Id) 
     order — and accepted IDs are pairwise distinct, so each present ID carries exactly the fields it
     was added with. -/
 theorem fields_preserved (q : Quirks) (ops : List Op)
-    (hw : q.seqCarry = true ∨ (run q ops).wrapped = false) :
+    (hw : q.seqCarry = true ∨ (run q ops).wrapped = false)
+    (hl : q.persistLastId = true ∨ (run q ops).lost = false) :
     (run q ops).st.entries.Sublist (run q ops).added ∧
     ∀ a ∈ (run q ops).st.entries, ∀ b ∈ (run q ops).added, a.1 = b.1 → a = b := by
-  have hi := run_inv q ops hw
+  have hi := run_inv q ops hw hl
   refine ⟨hi.sub, ?_⟩
   intro a ha b hb hab
   have ha' := hi.sub.subset ha
@@ -343,6 +378,49 @@ theorem parseId_wraps :
     Spec.parseId [49,56,52,52,54,55,52,52,48,55,51,55,48,57,53,53,49,54,50,49, 45, 55] = none ∧
     Code.parseId pinned [45] = some ⟨0, 0⟩ ∧ Spec.parseId [45] = none := by
   refine ⟨by decide, by decide, by decide, by decide⟩
+
+/-! ### entries keep their pairs; COUNT 0; incomplete and exclusive IDs -/
+
+/-- With the list representation XADD stores the pairs exactly as given: flattened again they are the
+    command's arguments `f v f v …`, in order, repeated names included — and `fields_preserved`
+    together with the range theorems says every read returns the stored pairs untouched. -/
+theorem xadd_keeps_pairs_as_given (args : List Bytes) (h : args.length % 2 = 0) :
+    (pairsOfArgs args).flatMap (fun p => [p.1, p.2]) = args :=
+  pairsOfArgs_flatten args h
+
+/-- Witness (hunt d2): as a map, `XADD dup 1-0 a 1 a 2 b 3` keeps `a=2, b=3` only. -/
+theorem map_fields_lose_pairs :
+    fieldsOfArgs [[97], [49], [97], [50], [98], [51]] [] = [([97], [50]), ([98], [51])] ∧
+    pairsOfArgs [[97], [49], [97], [50], [98], [51]] = [([97], [49]), ([97], [50]), ([98], [51])] := by
+  constructor <;> decide
+
+/-- XREAD COUNT 0 (repaired): no limit — the reply is that of XREAD without COUNT; as pinned it is empty (hunt d3). -/
+theorem xread_count_zero :
+    Cmd.xread fixed [([115], ⟨[(⟨1, 0⟩, []), (⟨2, 0⟩, [])], ⟨2, 0⟩, 2, 0, 2⟩)]
+        [[88,82,69,65,68], [67,79,85,78,84], [48], [83,84,82,69,65,77,83], [115], [48]] =
+      Cmd.xread fixed [([115], ⟨[(⟨1, 0⟩, []), (⟨2, 0⟩, [])], ⟨2, 0⟩, 2, 0, 2⟩)]
+        [[88,82,69,65,68], [83,84,82,69,65,77,83], [115], [48]] ∧
+    Cmd.xread pinned [([115], ⟨[(⟨1, 0⟩, []), (⟨2, 0⟩, [])], ⟨2, 0⟩, 2, 0, 2⟩)]
+        [[88,82,69,65,68], [67,79,85,78,84], [48], [83,84,82,69,65,77,83], [115], [48]] = .streams [] := by
+  constructor <;> rfl
+
+/-- An exclusive range start `(a` is the inclusive start at the next ID: exactly the IDs above `a`. -/
+theorem exclusive_start_exact (a b : Id) (h : nextId a = some b) (x : Id) (hx : x.seq < u64Mod) :
+    a < x ↔ b ≤ x := nextId_spec a b h x hx
+
+/-- An exclusive range end `(a` is the inclusive end at the previous ID: exactly the IDs below `a`. -/
+theorem exclusive_end_exact (a b : Id) (h : prevId a = some b) (x : Id) (hx : x.seq < u64Mod) :
+    x < a ↔ x ≤ b := prevId_spec a b h x hx
+
+/-- Incomplete IDs (repaired): `5` is `5-0` for XADD / XDEL / XREAD / a range start and
+    `5-18446744073709551615` for a range end; as pinned they are refused (hunt d4). -/
+theorem incomplete_ids :
+    parseBound fixed true [53] = some ⟨5, 0⟩ ∧ parseBound fixed false [57] = some ⟨9, 18446744073709551615⟩ ∧
+    parseBound fixed true [40, 53, 45, 48] = some ⟨5, 1⟩ ∧ parseBound fixed false [40, 57, 45, 56] = some ⟨9, 7⟩ ∧
+    parseBound fixed false [40, 48, 45, 48] = none ∧
+    parseBound pinned true [53] = none ∧ parseBound pinned true [40, 53, 45, 48] = none ∧
+    parseIdSeq pinned 0 [49, 50] = none ∧ parseIdSeq fixed 0 [49, 50] = some ⟨12, 0⟩ := by
+  refine ⟨by decide, by decide, by decide, by decide, by decide, by decide, by decide, by decide, by decide⟩
 
 /-- The lexicographic order of the model is the order of the packed u128 the code compares. -/
 theorem id_order_is_packed_order (a b : Id) (ha : a.seq < u64Mod) (hb : b.seq < u64Mod) :
